@@ -5,7 +5,8 @@ from props import common, mix, tim
 THM = "NextestModel.Thm.C12"
 GEN = ["tables"]
 GEN_GROUPS = ["termchild", "delayloop", "drainloop", "mainloop", "respond"]
-TRUSTED = ["model: Model/Unit (pause/resume of every timer each wait loop owns; illegal transitions are Act.panic exactly where StopwatchStart / PausableSleep panic) and Model/Dispatcher (debouncing)",
+TRUSTED = ["in-process timer stream p_timer: hooks VerifSleep (PausableSleep on a paused tokio clock) and VerifStopwatch (StopwatchStart around real sleeps; trusted: std Instant is monotonic, each operation happens between the harness's two clock readings around it — Driver/Timer.handleSWatch)",
+           "model: Model/Unit (pause/resume of every timer each wait loop owns; illegal transitions are Act.panic exactly where StopwatchStart / PausableSleep panic) and Model/Dispatcher (debouncing)",
            "SIGSTOP semantics, the <= 100 ms wait for acknowledgements and the unbiased select!/StreamMap order are the runtime's: the model treats the order of simultaneously pending requests as a choice (all orders are quantified over), the end-to-end family samples it"]
 ASSUMPTIONS = ["PARTIAL: `results unchanged` is proved per request (stop/continue alter pause flags only) and observed end-to-end, not as a trace-erasure theorem; the leak-timeout sleep is not pausable in the code (documented there) and in the model"]
 
